@@ -318,6 +318,25 @@ func (s *state) doReturn(rs []Val, d *ssa.Return) {
 		s.oblige("returns-only-if", "", u.ct.panicsIf.src, oe.evalBool(u.ct.panicsIf.e), d.Pos(), site, false)
 	}
 	u.covers = append(u.covers, &oblig{name: u.name() + "#cover." + site, kind: "cover", pc: append([]string(nil), s.pc...), goal: "false", clause: "return reachable", path: u.npaths})
+	firstEns := len(u.obligs)
+	if len(s.frames) == 0 {
+		defer func() {
+			// what the path returns and leaves behind: used to replay a counterexample
+			var post map[string]string
+			for _, o := range u.obligs[firstEns:] {
+				if o.kind != "ensures" && o.kind != "returns-only-if" {
+					continue
+				}
+				if post == nil {
+					post = map[string]string{}
+					for k, v := range s.heaps {
+						post[k] = v
+					}
+				}
+				o.results, o.postHeaps = rs, post
+			}
+		}()
+	}
 	for i, c := range u.ct.ensures {
 		if !c.active() {
 			continue
